@@ -1,41 +1,344 @@
-import NbioVerif.Model.JobQ
-/-! probe: C05 assembled on the job-queue model -/
-namespace JobQ
+import NbioVerif.Lemmas.ExecQInv
+/-! C05: per-connection job serialization — FIFO, one at a time, exactly once.
 
-/-- FIFO and exactly-once: in every reachable state the jobs run so far are a prefix of the jobs accepted
-    (same order, nothing skipped, nothing twice when ids are distinct), and once no drainer is active
-    everything accepted has run. -/
-theorem c05_fifo_exactly_once (as : List Act) :
-    let s := run init as
-    s.ran <+: s.acc ∧ (s.drainer = none → s.ran = s.acc) ∧ (s.acc.Nodup → s.ran.Nodup) := by
-  have hp := ran_prefix as
-  have hi := inv_run init as inv_init
-  refine ⟨hp, fun h => (hi.dr_none h).2, fun hn => ?_⟩
-  obtain ⟨t, ht⟩ := hp
-  rw [← ht] at hn
-  exact (List.nodup_append.mp hn).1
+All theorems quantify over **every** action sequence `as` of the transition system
+`ExecQ.step` (any number of submitters, any executor scheduling — the executor only decides
+*when* `spawn` happens —, any interleaving of submit / job start / job end / panic / the drainer's
+locked hand-over / close), for both instances (`k = .conn`: `Conn.Execute`/`MustExecute`/`execute`;
+`k = .async`: `Timer.Async`, used by C19).
 
-/-- one at a time: the model has a single drainer slot, and a drainer exists exactly while the list is non-empty -/
-theorem c05_single_drainer (as : List Act) :
-    let s := run init as
-    (s.drainer = none ↔ s.list = []) := by
-  have hi := inv_run init as inv_init
-  constructor
-  · intro h; exact (hi.dr_none h).1
-  · intro h
-    cases hd : (run init as).drainer with
-    | none => rfl
-    | some b =>
-      cases b with
-      | false => have := (hi.dr_f hd).1; rw [h] at this; simp at this
-      | true => have := (hi.dr_t hd).1; rw [h] at this; simp at this
+* `c05_one_at_a_time`       never two drainer closures, never two jobs inside `job()`, the start/end log
+                            is a serial log plus at most one open start
+* `c05_fifo_exactly_once`   jobs run are a prefix of jobs accepted (same order, nothing skipped or repeated);
+                            with no drainer left everything accepted has run
+* `c05_no_lost_job`         a drainer exists exactly while the list is non-empty (the hand-over race loses nothing)
+* `c05_no_index_panic`      `jobList[i]` is never out of range
+* `c05_closed_rejects`, `c05_must_accepts`, `c05_open_accepts`
+* `c05_panic_like_return`, `c05_panic_then_next`   a panicking job leaves the drainer exactly where a returning
+                            job leaves it, and its locked hand-over step is enabled
+* `c05_completes`           from every reachable state the drainer alone (no help from submitters) finishes
+                            everything that was accepted — whatever panicked before
+* `c05_close_after_earlier` a job (e.g. the close handler, routed through `MustExecute`) is entered only after
+                            every job accepted before it has ended -/
+namespace ExecQ
 
-/-- Execute on a closed connection returns false and changes nothing; MustExecute always enqueues -/
-theorem c05_closed_rejects (s : St) (j : Nat) (h : s.closed = true) : step s (.submit j false) = some s := by
+theorem runningJobs_one (s : St) (x : Drainer) (hd : s.drs = [x]) :
+    runningJobs s = if x.ph = .running then [x.job] else [] := by
+  simp only [runningJobs, hd, List.filter]
+  by_cases h : x.ph = .running
+  · simp [h]
+  · have : (x.ph == .running) = false := by simpa using h
+    simp [h, this]
+
+/-- One at a time: in every reachable state there is at most one drainer closure, at most one job is
+    inside `job()`, and the start/end history is strictly serial with at most one open start. -/
+theorem c05_one_at_a_time (k : Kind) (as : List Act) :
+    let s := run k init as
+    s.drs.length ≤ 1 ∧ (runningJobs s).length ≤ 1 ∧
+      ∃ cur, s.log = serial s.done ++ cur ∧ (cur = [] ∨ ∃ j, cur = [.s j] ∧ runningJobs s = [j]) := by
+  intro s
+  have hi := inv_reach k as
+  rcases hi.shape with ⟨hd, _, _, hlog⟩ | ⟨x, hd, di⟩
+  · refine ⟨by simp [s, hd], by simp [s, runningJobs, hd], [], by simpa using hlog, .inl rfl⟩
+  · refine ⟨by simp [s, hd], ?_, ?_⟩
+    · rw [runningJobs_one _ x hd]
+      split <;> simp
+    · rcases ph_cases k x with hh | hr | hw
+      · obtain ⟨p, _, _, _, hlog⟩ := di.hold hh
+        exact ⟨[], by simpa using hlog, .inl rfl⟩
+      · obtain ⟨p, _, _, _, hlog⟩ := di.runs hr
+        refine ⟨[.s x.job], hlog, .inr ⟨x.job, rfl, ?_⟩⟩
+        rw [runningJobs_one _ x hd]; simp [hr]
+      · exact ⟨[], by simpa using (di.wait hw).2, .inl rfl⟩
+
+/-- FIFO and exactly once: the jobs that have run are a prefix of the jobs accepted — same order, none
+    skipped, none twice (ids distinct ⇒ no duplicates) — and once no drainer is left, everything that
+    was accepted has run. -/
+theorem c05_fifo_exactly_once (k : Kind) (as : List Act) :
+    let s := run k init as
+    s.done <+: s.acc ∧ (s.drs = [] → s.done = s.acc) ∧ (s.acc.Nodup → s.done.Nodup) := by
+  intro s
+  have hi := inv_reach k as
+  have hp : s.done <+: s.acc := by
+    rcases hi.shape with ⟨_, _, hda, _⟩ | ⟨x, hd, di⟩
+    · simp only [s]; rw [hda]; exact List.prefix_refl _
+    · rcases ph_cases k x with hh | hr | hw
+      · obtain ⟨p, _, _, ha, _⟩ := di.hold hh; exact ⟨_, ha⟩
+      · obtain ⟨p, _, _, ha, _⟩ := di.runs hr; exact ⟨_, ha⟩
+      · exact ⟨_, (di.wait hw).1⟩
+  refine ⟨hp, ?_, ?_⟩
+  · intro hd
+    rcases hi.shape with ⟨_, _, hda, _⟩ | ⟨x, hd', _⟩
+    · exact hda
+    · simp only [s] at hd; rw [hd] at hd'; cases hd'
+  · intro hn
+    obtain ⟨t, ht⟩ := hp
+    rw [← ht] at hn
+    exact (List.nodup_append.mp hn).1
+
+/-- No lost job, no stray drainer: a drainer closure exists exactly while the job list is non-empty.
+    (The two-party race "drainer found the list exhausted" vs "submitter found it non-empty" cannot
+    strand a job, and cannot start a second drainer.) -/
+theorem c05_no_lost_job (k : Kind) (as : List Act) :
+    let s := run k init as
+    (s.drs = [] ↔ s.list = []) := by
+  intro s
+  have hi := inv_reach k as
+  rcases hi.shape with ⟨hd, hl, _, _⟩ | ⟨x, hd, di⟩
+  · exact ⟨fun _ => hl, fun _ => hd⟩
+  · constructor
+    · intro h; simp only [s] at h; rw [h] at hd; cases hd
+    · intro h; exact absurd h di.ne
+
+/-- The index expressions `jobList[i]` / `asyncList[i]` never go out of range. -/
+theorem c05_no_index_panic (k : Kind) (as : List Act) : (run k init as).crash = false :=
+  (inv_reach k as).noCrash
+
+/-- `Execute` on a closed connection returns false and changes nothing (the job is never accepted,
+    hence by `c05_fifo_exactly_once` never run). -/
+theorem c05_closed_rejects (s : St) (j : Nat) (h : s.closed = true) :
+    step .conn s (.submit j false) = some s := by
   simp [step, h]
 
-theorem c05_must_accepts (s : St) (j : Nat) :
-    ∃ s', step s (.submit j true) = some s' ∧ s'.acc = s.acc ++ [j] := by
-  simp [step]
+/-- `MustExecute` always accepts, closed or not. -/
+theorem c05_must_accepts (k : Kind) (s : St) (j : Nat) :
+    ∃ s', step k s (.submit j true) = some s' ∧ s'.acc = s.acc ++ [j] ∧ s'.list = s.list ++ [j] := by
+  simp only [step]
+  split
+  · rename_i h; simp at h
+  · split <;> exact ⟨_, rfl, rfl, rfl⟩
 
-end JobQ
+/-- `Execute` on an open connection accepts. -/
+theorem c05_open_accepts (k : Kind) (s : St) (j : Nat) (h : s.closed = false) :
+    ∃ s', step k s (.submit j false) = some s' ∧ s'.acc = s.acc ++ [j] := by
+  simp only [step]
+  split
+  · rename_i hh; simp [h] at hh
+  · split <;> exact ⟨_, rfl, rfl⟩
+
+/-- A panicking job leaves the drainer exactly where a returning job leaves it (the recover wrapper):
+    the two successor states differ in the panic counter only. -/
+theorem c05_panic_like_return (k : Kind) (s : St) (d : Nat) :
+    step k s (.finish d true) = (step k s (.finish d false)).map (fun s' => { s' with panics := s'.panics + 1 }) := by
+  simp only [step]
+  split
+  · split <;> simp
+  · rfl
+
+/-- ... and the drainer's locked hand-over step is enabled right after it: a panicking job is followed
+    by `next`. -/
+theorem c05_panic_then_next (k : Kind) (s s' : St) (d : Nat) (p : Bool)
+    (h : step k s (.finish d p) = some s') : ∀ big, (step k s' (.next d big)).isSome = true := by
+  simp only [step] at h
+  split at h
+  · rename_i x hx
+    split at h
+    · cases h
+      have hd : d < s.drs.length := (List.getElem?_eq_some_iff.mp hx).1
+      intro big
+      simp [step, List.getElem?_set_self hd]
+    · cases h
+  · cases h
+
+/-! ### completion: the drainer alone finishes everything accepted -/
+
+/-- the drainer's own next action -/
+def drainAct (s : St) : Option Act :=
+  match s.drs with
+  | [] => none
+  | x :: _ => some (match x.ph with
+    | .spawned => .spawn 0 false | .ready => .start 0 | .running => .finish 0 false | .finished => .next 0 false)
+
+/-- let the drainer run for `n` steps (no submitter, no close) -/
+def drain (k : Kind) : Nat → St → St
+  | 0, s => s
+  | n + 1, s => match drainAct s with
+    | none => s
+    | some a => match step k s a with
+      | some s' => drain k n s'
+      | none => s
+
+def rank : Ph → Nat | .spawned => 4 | .ready => 3 | .running => 2 | .finished => 1
+
+def mu (s : St) : Nat :=
+  match s.drs with
+  | [] => 0
+  | x :: _ => 4 * (s.list.length + 1 - x.taken) + rank x.ph
+
+theorem take_progress (k : Kind) (s : St) (x : Drainer) (_hc : s.crash = false) (hd : s.drs = [x])
+    (di : DInv k s x) (_hw : waiting k x) (r : Nat) (hr : 1 ≤ r) :
+    (take k false s 0 x).acc = s.acc ∧ mu (take k false s 0 x) < 4 * (s.list.length + 1 - x.taken) + r := by
+  have hle := di.le
+  unfold take
+  rw [resetList_nil]
+  split
+  · simp [mu, hd]; omega
+  · rename_i hlen
+    have hlen : ¬ s.list.length = x.taken := by simpa using hlen
+    split
+    · simp [mu, hd, rank]; omega
+    · rename_i hj
+      have := List.getElem?_eq_none_iff.mp hj
+      omega
+
+theorem drain_progress (k : Kind) (s : St) (x : Drainer) (hi : Inv k s) (hd : s.drs = [x]) :
+    ∃ a s', drainAct s = some a ∧ step k s a = some s' ∧ s'.acc = s.acc ∧ mu s' < mu s := by
+  have di : DInv k s x := by
+    rcases hi.shape with ⟨h, _⟩ | ⟨y, hy, di⟩
+    · rw [h] at hd; cases hd
+    · rw [hd] at hy; cases hy; exact di
+  have hle := di.le
+  cases hp : x.ph with
+  | spawned =>
+    cases k with
+    | conn =>
+      have hs : step .conn s (.spawn 0 false) = some { s with drs := [{ x with ph := .ready }] } := by
+        simp [step, hd, hp]
+      exact ⟨_, _, by simp [drainAct, hd, hp], hs, rfl, by simp [mu, hd, hp, rank]⟩
+    | async =>
+      have := take_progress .async s x hi.noCrash hd di (.inr ⟨hp, rfl⟩) 4 (by omega)
+      have hs : step .async s (.spawn 0 false) = some (take .async false s 0 x) := by simp [step, hd, hp]
+      exact ⟨_, _, by simp [drainAct, hd, hp], hs, this.1, by simpa [mu, hd, hp, rank] using this.2⟩
+  | ready =>
+    have hs : step k s (.start 0) = some { s with drs := [{ x with ph := .running }], log := s.log ++ [.s x.job] } := by
+      simp [step, hd, hp]
+    exact ⟨_, _, by simp [drainAct, hd, hp], hs, rfl, by simp [mu, hd, hp, rank]⟩
+  | running =>
+    have hs : step k s (.finish 0 false) = some { s with drs := [{ x with ph := .finished }], log := s.log ++ [.e x.job], done := s.done ++ [x.job] } := by
+      simp [step, hd, hp]
+    exact ⟨_, _, by simp [drainAct, hd, hp], hs, rfl, by simp [mu, hd, hp, rank]⟩
+  | finished =>
+    have := take_progress k s x hi.noCrash hd di (.inl hp) 1 (by omega)
+    have hs : step k s (.next 0 false) = some (take k false s 0 x) := by simp [step, hd, hp]
+    exact ⟨_, _, by simp [drainAct, hd, hp], hs, this.1, by simpa [mu, hd, hp, rank] using this.2⟩
+
+theorem drain_completes (k : Kind) : ∀ (n : Nat) (s : St), Inv k s → mu s ≤ n →
+    (drain k n s).drs = [] ∧ (drain k n s).done = s.acc ∧ (drain k n s).acc = s.acc := by
+  intro n
+  induction n with
+  | zero =>
+    intro s hi hm
+    rcases hi.shape with ⟨hd, _, hda, _⟩ | ⟨x, hd, di⟩
+    · exact ⟨hd, hda, rfl⟩
+    · have : 0 < rank x.ph := by cases x.ph <;> simp [rank]
+      simp [mu, hd] at hm; omega
+  | succ n ih =>
+    intro s hi hm
+    rcases hi.shape with ⟨hd, _, hda, _⟩ | ⟨x, hd, di⟩
+    · simp [drain, drainAct, hd, hda]
+    · obtain ⟨a, s', ha, hs, hacc, hlt⟩ := drain_progress k s x hi hd
+      have hi' := inv_step k s s' a hi hs
+      have := ih s' hi' (by omega)
+      simp only [drain, ha, hs]
+      rw [hacc] at this
+      exact this
+
+/-- Completion: from every reachable state — whatever was submitted, closed or panicked before — the
+    drainer, given only that the executor starts its closure and that jobs return or panic, runs
+    every accepted job and then disappears; no help from later submitters is needed. A panicking job
+    therefore never prevents later jobs. -/
+theorem c05_completes (k : Kind) (as : List Act) :
+    let s := run k init as
+    ∃ n, (drain k n s).drs = [] ∧ (drain k n s).done = s.acc ∧ (drain k n s).acc = s.acc := by
+  intro s
+  exact ⟨mu s, drain_completes k (mu s) s (inv_reach k as) (Nat.le_refl _)⟩
+
+/-! ### close handling comes after all earlier jobs -/
+
+theorem split_unique {l a a' b b' : List Nat} {j : Nat} (hn : l.Nodup)
+    (h1 : l = a ++ j :: b) (h2 : l = a' ++ j :: b') : a = a' := by
+  induction a generalizing l a' with
+  | nil =>
+    cases a' with
+    | nil => rfl
+    | cons y ys =>
+      subst h1
+      simp at h2
+      obtain ⟨rfl, hb⟩ := h2
+      rw [hb] at hn
+      simp at hn
+  | cons x xs ih =>
+    cases a' with
+    | nil =>
+      subst h2
+      simp at h1
+      obtain ⟨rfl, hb⟩ := h1
+      rw [hb] at hn
+      simp at hn
+    | cons y ys =>
+      subst h1
+      simp at h2
+      obtain ⟨rfl, h2⟩ := h2
+      have hn' : (xs ++ j :: b).Nodup := (List.nodup_cons.mp hn).2
+      rw [ih hn' rfl h2]
+
+theorem pre_subset_done {acc done rest pre post : List Nat} {j : Nat} (hn : acc.Nodup)
+    (h1 : done ++ rest = acc) (h2 : acc = pre ++ j :: post)
+    (hj : j ∈ done ∨ ∃ r, rest = j :: r) : ∀ i ∈ pre, i ∈ done := by
+  rcases hj with hj | ⟨r, hr⟩
+  · obtain ⟨a, b, hab⟩ := List.append_of_mem hj
+    have : acc = a ++ j :: (b ++ rest) := by rw [← h1, hab]; simp
+    have := split_unique hn this h2
+    intro i hi
+    rw [hab, this]; simp [hi]
+  · have : acc = done ++ j :: r := by rw [← h1, hr]
+    have := split_unique hn this h2
+    intro i hi; rw [this]; exact hi
+
+/-- Order against everything earlier: whenever a job `j` is inside `job()` or has ended, every job that
+    was accepted before `j` has already ended. In particular the close handler that nbhttp routes through
+    `MustExecute` (nbhttp/engine.go) runs after all work queued before it, and handler jobs of one
+    connection are totally ordered. -/
+theorem c05_close_after_earlier (k : Kind) (as : List Act) :
+    let s := run k init as
+    s.acc.Nodup → ∀ pre j post, s.acc = pre ++ j :: post →
+      (j ∈ s.done ∨ j ∈ runningJobs s) → ∀ i ∈ pre, i ∈ s.done := by
+  intro s hn pre j post hacc hj
+  have hi := inv_reach k as
+  rcases hi.shape with ⟨hd, _, hda, _⟩ | ⟨x, hd, di⟩
+  · intro i hi'
+    have : s.done = s.acc := hda
+    rw [this, hacc]; simp [hi']
+  · rcases ph_cases k x with hh | hr | hw
+    · obtain ⟨p, _, _, ha, _⟩ := di.hold hh
+      have hnr : runningJobs s = [] := by
+        have : x.ph ≠ .running := by
+          rcases hh with h | ⟨h, _⟩ <;> rw [h] <;> simp
+        rw [runningJobs_one _ x hd]; simp [this]
+      rw [hnr] at hj
+      exact pre_subset_done hn ha hacc (.inl (by simpa using hj))
+    · obtain ⟨p, _, hg, ha, _⟩ := di.runs hr
+      have hrj : runningJobs s = [x.job] := by rw [runningJobs_one _ x hd]; simp [hr]
+      rw [hrj] at hj
+      refine pre_subset_done hn ha hacc ?_
+      rcases hj with hj | hj
+      · exact .inl hj
+      · have : j = x.job := by simpa using hj
+        exact .inr ⟨_, by rw [this]; exact drop_succ_of_get hg⟩
+    · have hnr : runningJobs s = [] := by
+        have : x.ph ≠ .running := by
+          rcases hw with h | ⟨h, _⟩ <;> rw [h] <;> simp
+        rw [runningJobs_one _ x hd]; simp [this]
+      rw [hnr] at hj
+      exact pre_subset_done hn (di.wait hw).1 hacc (.inl (by simpa using hj))
+
+/-! ### non-vacuity -/
+
+/-- a run in which a second job is submitted while the first still runs, the first panics, and the
+    connection is closed in between: both jobs run, in order, and a later `Execute` is refused -/
+example :
+    let s := run .conn init [.submit 1 false, .spawn 0 false, .start 0, .submit 2 false, .close, .finish 0 true,
+                             .submit 3 false, .next 0 false, .start 0, .finish 0 false, .next 0 true]
+    s.done = [1, 2] ∧ s.acc = [1, 2] ∧ s.drs = [] ∧ s.panics = 1 ∧
+      s.log = [.s 1, .e 1, .s 2, .e 2] := by decide
+
+/-- the hand-over race in the other order: the drainer has already reset the list, the submitter is head again -/
+example :
+    let s := run .conn init [.submit 1 false, .spawn 0 false, .start 0, .finish 0 false, .next 0 false, .submit 2 true, .spawn 0 false, .start 0]
+    s.done = [1] ∧ s.acc = [1, 2] ∧ runningJobs s = [2] := by decide
+
+example :
+    let s := run .async init [.submit 1 true, .submit 2 true, .spawn 0 false, .start 0, .finish 0 false, .next 0 false, .start 0, .finish 0 true, .next 0 true]
+    s.done = [1, 2] ∧ s.drs = [] ∧ s.list = [] := by decide
+
+end ExecQ
